@@ -20,6 +20,60 @@ HARNESSES = [{'id': 'c12_string',
   'oracle': 'read-back equal / unchanged for empty, following integer intact',
   'bounds': {'quick': {'defs': {'LMAX': 3}, 'unwind': 6, 'cap': 600}, 'thorough': {'defs': {'LMAX': 6}, 'unwind': 9, 'cap': 3000}}}]
 
+
+def _h(id, src, entry, tus, desc, domain, oracle, quick, thorough=None, **kw):
+    b = {'quick': quick}
+    if thorough is not None:
+        b['thorough'] = thorough
+    d = dict(id=id, property='C12', src=src, entry=entry, tus=tus, desc=desc, domain=domain, oracle=oracle, bounds=b)
+    d.update(kw)
+    return d
+
+_DF = 'src/interrogatedb/interrogate_datafile.cxx'
+_DB = 'src/interrogatedb/'
+_STR = {'vs_same_output.0': 50, 'll_strlen.0': 6, 'll_memcmp.0': 6, 'll_memcpy.0': 40, 'll_memcpy.1': 40, 'll_memmove.0': 40, 'll_memmove.1': 40, 'll_memmove.2': 40, 'll_memmove.3': 40}
+_BYTEWISE = ['-DLL_MEMCPY_BYTEWISE']
+
+HARNESSES += [
+ _h('c12_vec_int', 'c12_vectors.cxx', 'harness_c12_vec_int', [_DF],
+    'idf_output_vector/idf_input_vector<int> round trip followed by an integer',
+    'vector length 0..NMAX, elements and following int over all of int; target vector pre-filled with stale content',
+    'length and elements equal, stream not failed, following integer intact, re-serialises to the same tokens',
+    dict(defs=dict(NMAX=2), unwind=5, unwindset=_STR, cap=600), dict(defs=dict(NMAX=4), unwind=7, unwindset=_STR, cap=3000)),
+ _h('c12_vec_derivation', 'c12_vectors.cxx', 'harness_c12_vec_derivation', [_DF, _DB + 'interrogateType.cxx'],
+    'idf vector of InterrogateType::Derivation round trip',
+    'vector length 0..NMAX, all four fields over all of int',
+    'field-wise equality, following integer intact, re-serialises to the same tokens',
+    dict(defs=dict(NMAX=2), unwind=5, unwindset=_STR, cap=600), dict(defs=dict(NMAX=3), unwind=6, unwindset=_STR, cap=3000)),
+ _h('c12_vec_enumvalue', 'c12_vectors.cxx', 'harness_c12_vec_enumvalue', [_DF, _DB + 'interrogateType.cxx'],
+    'idf vector of InterrogateType::EnumValue round trip (three strings + value)',
+    'vector length 0..NMAX, strings of length 0..LMAX over all byte values, value over all of int',
+    'field-wise equality, following integer intact, re-serialises to the same tokens',
+    dict(defs=dict(NMAX=2, LMAX=2), unwind=5, unwindset=_STR, cap=600)),
+ _h('c12_vec_parameter', 'c12_vectors.cxx', 'harness_c12_vec_parameter', [_DF, _DB + 'interrogateFunctionWrapper.cxx'],
+    'idf vector of InterrogateFunctionWrapper::Parameter round trip',
+    'vector length 0..NMAX, name of length 0..LMAX over all byte values, flags and type over all of int',
+    'field-wise equality, following integer intact, re-serialises to the same tokens',
+    dict(defs=dict(NMAX=1, LMAX=1), unwind=5, unwindset=_STR, cap=600)),
+]
+
+_REC = [_DF, _DB + 'interrogateComponent.cxx', _DB + 'interrogateDatabase.cxx']
+_RECU = dict(_STR)
+
+def _rec(name, extra_tus, desc, shapes, quick, thorough=None, **kw):
+    return _h('c12_rec_' + name, 'c12_records.cxx', 'harness_c12_rec_' + name, _REC + [_DB + t for t in extra_tus], desc,
+              'every scalar field over all of int; every string of length 0..LMAX over all byte values; container shapes: ' + shapes,
+              'field-wise equality with the record written, stream not failed, following integer intact, integers delimited, '
+              're-serialising the read-back record gives the same token sequence',
+              quick, thorough, cbmc_flags=_BYTEWISE, **kw)
+
+HARNESSES += [
+ _rec('component', [], 'InterrogateComponent::output/input (name + alt names)', '0, 1 or 2 alt names',
+      dict(defs=dict(LMAX=2), unwind=5, unwindset=_RECU, cap=600)),
+ _rec('manifest', ['interrogateManifest.cxx'], 'InterrogateManifest::output/input', '0 or 1 alt name',
+      dict(defs=dict(LMAX=2), unwind=5, unwindset=_RECU, cap=600)),
+]
+
 PROPERTY_INFO = {'C12': {'level': 'model_checking',
          'explanation': 'bounded symbolic execution (CBMC) of the real serialisation code over a token-stream model of iostreams',
          'outside': 'real decimal text (the stream model asserts delimitation of integers instead); files larger than the bounds; std::ifstream '
